@@ -15,7 +15,7 @@ from .. import bus, cover, gen, ref
 LEVEL = 'exploration'
 JOBS = {'quick': 2, 'thorough': 16}
 REQUIRED_MONITORS = ('chi2_reference', 'chi2_rigid_motion', 'chi2_relabel')
-REQUIRED_CLASSES = ('place:coincident', 'place:far-from-origin', 'place:far-from-origin-aligned', 'mobile-array:same-object-overwritten', 'mobile-array:strided-or-fortran', 'restr:none', 'restr:partial', 'restr:all-fixed', 'restr:dup-fixed', 'restr:dup-mobile',
+REQUIRED_CLASSES = ('calculator:pickle', 'place:coincident', 'place:far-from-origin', 'place:far-from-origin-aligned', 'mobile-array:same-object-overwritten', 'mobile-array:strided-or-fortran', 'restr:none', 'restr:partial', 'restr:all-fixed', 'restr:dup-fixed', 'restr:dup-mobile',
                     'penalty:k>0', 'penalty:k=0', 'embedded:mc')
 RULE = ('calculators over (fixed size 1..40, mobile size 1..25, restraint class, placement class); each is '
         'evaluated on 4 configurations different from the construction one. Non-trivial: at least two mobile '
@@ -258,6 +258,28 @@ def run_calc(ctx, case):
             else:
                 val = calc(mobile)
             ctx.count('evaluations')
+            if ev == 1 and it % 3 == 0:
+                import copy
+                import pickle
+                real = calc.__dict__['_gmv_real']
+                import gaddlemaps._backend as be
+
+                def by_pickle():
+                    # (pickle looks the class up by name: the monitor proxy steps aside for the round trip)
+                    with bus.patched(be, 'Chi2Calculator', type(real)):
+                        return pickle.loads(pickle.dumps(real))
+                for label, clone in (('pickle', by_pickle), ('deepcopy', lambda: copy.deepcopy(real))):
+                    try:
+                        twin = clone()
+                    except Exception:  # noqa
+                        ctx.count(f'calculator_{label}_not_supported')
+                        continue
+                    v2 = twin(mobile)
+                    ctx.monitor('chi2_clone')
+                    ctx.hit('calculator:' + label)
+                    if not (v2 == val):
+                        ctx.violation(f'chi2-differs-after-{label}', f'{val!r} from the calculator, {v2!r} from its {label} clone',
+                                      witness={'fixed': fixed, 'mobile': mobile, 'restraints': restr})
             want, margin = ref.ref_chi2(fixed, mobile, restr)
             if margin < 1e-9:
                 continue
